@@ -7,6 +7,7 @@ import CedarVerif.Lemmas.PartialSubst5
 import CedarVerif.Lemmas.PartialStore5
 import CedarVerif.Lemmas.PartialStore6
 import CedarVerif.Lemmas.PartialStore7
+import CedarVerif.Lemmas.PartialStore8
 import CedarVerif.Cedar.ExprBeq
 /-
 C13 — partial evaluation with unknowns is sound.  Property theorems only (helpers: Lemmas/Partial*.lean).
@@ -52,16 +53,26 @@ differ in the model).
     `PS.papplyBinary_sound3_on`; the unrelativised theorems are the instance `U` = everything.  Non-vacuity: an `example`
     with a `.partial()` store lacking the dereferenced `resource.owner` entity, where `PS.StoreCompletes` is FALSE and
     `PS.StoreCompletesOn` holds.
+  * `partial_authorization_sound_direct` (+ `reauthorize_eq_fresh_on`): the one-round statement on the **unsubstituted** store
+    lifted to policy sets — under `PS.DirectUnk pes` and the hypotheses of `partial_authorization_sound` (without `StoreCanon`),
+    `reauthorize σ pes`, on the store the caller still holds, gives in one round decision and determining policies of the fresh
+    concrete authorization.  `PolicyAgreesOn pes2` / `reauthorize_core_on pes2` generalise `PolicyAgrees` / `reauthorize_core`
+    over the second-pass store (old names = instances at `.ofConcrete es`);
+  * `concretize_request_sound`: `concretize_request σ = ok (concrete req)` (the model's do-block) implies `PS.Concretizes2 σ es
+    preq req` — side condition: a residual context lies in the fragment (`PS.CtxFrag`); `partial_authorization_sound_req` /
+    `partial_authorization_sound_direct_req`: the authorizer-level theorems with `concretize_request = ok` as the ONLY request
+    hypothesis;
+  * `unknown_call_counterexample` (kernel-checked): for policies calling `unknown("x")` the soundness statement is false in both
+    forms (the call becomes an unknown node in the first pass, is an error concretely, and is not touched by
+    `Expr::substitute`), so `fn ≠ "unknown"` in `Frag2.call` cannot be dropped; `UnknownCallSoundFull` (kept, not proved): the
+    statement relative to the desugaring `PS.desugarUnk`; `unknown_call_sound_partial`: proved for the call itself.
 Still missing w.r.t. `PinterpSoundFull`:
   * `U` over-approximates the dereferenced uids (a mentioned uid that is never dereferenced must still be present or bound);
-  * the one-round statement on the *unsubstituted* store for stores whose residual attributes are all direct unknowns is
-    proved at expression level (`pinterp_sound_store_reauth_direct`), not lifted to `reauthorize` on policy sets
-    (`PolicyAgrees` / `reauthorize_core` fix the second-pass store to `.ofConcrete es`);
   * `StoreCompletes` is stated through `evaluate ∘ substUnk` of a residual attribute, not through `RestrictedEvaluator`
-    (`rinterp`); for contexts and request entries the link to what `concretize_request` computes is proved step by step
-    (`restricted_eval_sound`, `concretize_entry_gives_conc`, `context_substitute_gives_completes`) but `PS.Concretizes2` and
-    `concretize_request = ok` are still separate hypotheses of `partial_authorization_sound`;
-  * calls of the `unknown` function in the policy text (no concrete counterpart: `Expr::substitute` does not look into them).
+    (`rinterp`); for the request this link is now proved (`concretize_request_sound`), for attribute values of the store it is
+    not (the Rust API takes the substituted store as an input, there is no `Entities::substitute` to mirror);
+  * `UnknownCallSoundFull`: the congruence "first pass of `e` = first pass of `desugarUnk e` up to desugaring of residuals"
+    through all arms of `partial_interpret`; calls `unknown(e)` with a computed name have no static desugaring at all.
 -/
 namespace Cedar.C13
 open Cedar
@@ -969,5 +980,341 @@ example :
     refine .record (by decide) ?_
     intro kv hkv; simp only [List.mem_cons, List.not_mem_nil, or_false] at hkv; subst hkv; exact .unknown _ _ hl
   exact ⟨rfl, context_substitute_gives_completes σ [] hf rfl⟩
+
+/-! ### one round on the store the caller still holds; `concretize_request` as the only request hypothesis -/
+
+/-- **reauthorize_eq_fresh_on** — `reauthorize_eq_fresh` for an arbitrary second-pass store `pes2` (the `entities` argument
+of `PartialResponse::reauthorize`): given policy-level agreement of the residual policies re-evaluated on `pes2`
+(`PolicyAgreesOn pes2`), `reauthorize σ pes2` yields decision and determining policies of the fresh concrete authorization
+on `(req', es')`.  `reauthorize_eq_fresh` is the instance `pes2 = .ofConcrete es'`. -/
+theorem reauthorize_eq_fresh_on (pes2 : PEntities) (σ : Mapper) (preq : PRequest) (pes : PEntities) (ps : List Policy)
+    (req' : Request) (es' : Entities)
+    (hreq : (isAuthorizedCore [] preq pes ps).concretizeRequest σ = .ok (.ofConcrete req'))
+    (hslot : (isAuthorizedCore [] preq pes ps).residualPoliciesPanic = false)
+    (hsound : ∀ p, p ∈ ps → PolicyAgreesOn pes2 σ preq pes req' es' p) :
+    ∃ pr2, (isAuthorizedCore [] preq pes ps).reauthorize σ pes2 = .ok pr2 ∧
+      pr2.decision = some (isAuthorized req' es' ps).decision ∧
+      pr2.concretize.decision = (isAuthorized req' es' ps).decision ∧
+      (∀ id, id ∈ pr2.concretize.reasons ↔ id ∈ (isAuthorized req' es' ps).reasons) :=
+  reauthorize_core_on pes2 σ preq pes ps req' es' hreq hslot hsound
+
+/-- **partial_authorization_sound_direct** — `partial_authorization_sound` with the second pass on the **unsubstituted**
+store: when every residual attribute value of the (concrete-mode) partial store `pes` is a direct `Unknown` and no tag value
+is residual (`PS.DirectUnk pes`), `reauthorize σ pes` — re-authorizing against the very store the caller still holds, the way
+`PartialResponse::reauthorize(mapping, auth, entities)` is typically called — succeeds in ONE round and gives the decision
+and the determining policies of authorizing the fully concrete request on the completed store `es` from scratch.  No
+canonicity hypothesis on `es` beyond `StoreCompletes` is needed (the second pass never reads `es`).  Neither "direct" nor
+"no residual tag" can be dropped (`second_round_needed`, `direct_unknown_one_round`).  `hfuel2` is about the pass that is
+actually run (on `pes`). -/
+theorem partial_authorization_sound_direct (σ : Mapper) (req : Request) (es : Entities) (preq : PRequest) (pes : PEntities)
+    (ps : List Policy) (hctx : (Value.record req.context).Canon)
+    (hS : PS.StoreCompletes σ pes es) (hD : PS.DirectUnk pes) (hC : PS.Concretizes2 σ es preq req)
+    (hfrag : ∀ p, p ∈ ps → PS.Frag2 σ p.condition ∧ p.condition.unknowns = [])
+    (hreq : (isAuthorizedCore [] preq pes ps).concretizeRequest σ = .ok (.ofConcrete req))
+    (hslot : (isAuthorizedCore [] preq pes ps).residualPoliciesPanic = false)
+    (hfuel1 : ∀ p, p ∈ ps → partialEvaluate [] preq pes p ≠ .stuck)
+    (hfuel2 : ∀ p, p ∈ ps → ∀ q, residualPolicy (partialEvaluate [] preq pes p) p = some q →
+      partialEvaluate σ (.ofConcrete req) pes q ≠ .stuck) :
+    let pr := isAuthorizedCore [] preq pes ps
+    (∃ pr2, pr.reauthorize σ pes = .ok pr2 ∧
+      pr2.decision = some (isAuthorized req es ps).decision ∧
+      pr2.concretize.decision = (isAuthorized req es ps).decision ∧
+      (∀ id, id ∈ pr2.concretize.reasons ↔ id ∈ (isAuthorized req es ps).reasons)) ∧
+    (∀ d, pr.decision = some d → (isAuthorized req es ps).decision = d) ∧
+    (∀ id, id ∈ pr.mustBeDetermining → id ∈ (isAuthorized req es ps).reasons) ∧
+    (∀ id, id ∈ (isAuthorized req es ps).reasons → id ∈ pr.mayBeDetermining) := by
+  intro pr
+  obtain ⟨h1, h2, h3, _⟩ := partial_definite_sound σ req es preq pes ps hctx hS hC hfrag hfuel1
+  refine ⟨?_, h1, h2, h3⟩
+  exact reauthorize_core_on pes σ preq pes ps req es hreq hslot
+    (fun p hp => PS.policyAgreesOn_of_frag3_direct σ req es hctx preq pes hS hD hC p (hfrag p hp).1
+      (PS.substUnk_of_noUnk σ _ (hfrag p hp).2)
+      (fun r hr => PS.noSlot_of_panicFree preq pes ps hslot hp hr) (hfuel2 p hp) (hfuel1 p hp))
+
+/-- non-vacuity of `partial_authorization_sound_direct`: `User::"a"` with the direct unknown attribute `level = unknown("u")`,
+    unknown principal; a permit `principal.level == 1`, a forbid `principal.level < 0` and a template-linked forbid
+    `principal == ?principal` (linked to `User::"z"`).  All hypotheses hold; the partial decision is undetermined (three
+    residuals); ONE `reauthorize` round on the *unsubstituted* store `pes` gives the concrete `Allow`. -/
+example :
+    let σ : Mapper := [("principal", .prim (.entityUID ⟨"User", "a"⟩)), ("u", .prim (.int 1))]
+    let req : Request := ⟨⟨"User", "a"⟩, ⟨"A", "x"⟩, ⟨"R", "r"⟩, []⟩
+    let preq : PRequest := ⟨.unknown (some "User"), .known ⟨"A", "x"⟩, .known ⟨"R", "r"⟩, some (.value [])⟩
+    let pes : PEntities := ⟨[(⟨"User", "a"⟩, ⟨[("level", .residual (.unknown "u" none))], [], []⟩)], false⟩
+    let es : Entities := [(⟨"User", "a"⟩, ⟨[("level", .prim (.int 1))], [], []⟩)]
+    let p1 : Policy := ⟨"p1", .permit, .binaryApp .eq (.getAttr (.var .principal) "level") (.lit (.int 1)), []⟩
+    let p2 : Policy := ⟨"p2", .forbid, .binaryApp .less (.getAttr (.var .principal) "level") (.lit (.int 0)), []⟩
+    let p3 : Policy := ⟨"p3", .forbid, .binaryApp .eq (.var .principal) (.slot .principal), [(.principal, ⟨"User", "z"⟩)]⟩
+    let ps := [p1, p2, p3]
+    PS.DirectUnk pes ∧ (isAuthorizedCore [] preq pes ps).decision = none ∧
+    (isAuthorizedCore [] preq pes ps).residualForbids.length = 2 ∧ (isAuthorized req es ps).decision = .allow ∧
+    ∃ pr2, (isAuthorizedCore [] preq pes ps).reauthorize σ pes = .ok pr2 ∧
+      pr2.decision = some (isAuthorized req es ps).decision ∧
+      (∀ id, id ∈ pr2.concretize.reasons ↔ id ∈ (isAuthorized req es ps).reasons) := by
+  intro σ req preq pes es p1 p2 p3 ps
+  have hu : PS.UnkOK σ "u" none := ⟨_, rfl, trivial, by intro t ht; cases ht⟩
+  have hS : PS.StoreCompletes σ pes es :=
+    PS.storeCompletes_single _ _ _ rfl
+      (PS.attrsComplete_cons "level" (show PS.AttrCompletes _ _ (.residual _) (.prim (.int 1)) from ⟨.unknown _ _ hu, trivial, fun _ _ => rfl⟩)
+        PS.attrsComplete_nil)
+      PS.attrsComplete_nil
+  have hD : PS.DirectUnk pes := by
+    refine ⟨rfl, ?_⟩
+    intro u d hfd
+    simp only [pes, PEntities.find?] at hfd
+    split at hfd
+    · cases hfd
+      constructor
+      · intro a r hl
+        simp only [lookupKV] at hl
+        split at hl
+        · cases hl; exact ⟨_, _, rfl⟩
+        · cases hl
+      · intro a r hl; simp [lookupKV] at hl
+    · cases hfd
+  have hfrag : ∀ p, p ∈ ps → PS.Frag2 σ p.condition ∧ p.condition.unknowns = [] := by
+    intro p hp
+    simp only [ps, List.mem_cons, List.not_mem_nil, or_false] at hp
+    rcases hp with rfl | rfl | rfl
+    · exact ⟨.binaryApp .eq (.getAttr "level" (.var _)) (.lit _), rfl⟩
+    · exact ⟨.binaryApp .less (.getAttr "level" (.var _)) (.lit _), rfl⟩
+    · exact ⟨.binaryApp .eq (.var _) (.slot _), rfl⟩
+  obtain ⟨hf1, hf2⟩ := PS.fuelOKOn_spec (pes2 := pes) (σ := σ) (req := req) (preq := preq) (pes := pes) (ps := ps) (by decide +kernel)
+  obtain ⟨⟨pr2, h1, h2, _, h4⟩, _⟩ := partial_authorization_sound_direct σ req es preq pes ps ⟨trivial, trivial⟩
+    hS hD ⟨⟨rfl, rfl⟩, rfl, rfl, rfl⟩ hfrag rfl (by decide +kernel) hf1 hf2
+  exact ⟨hD, by decide +kernel, by decide +kernel, by decide +kernel, pr2, h1, h2, h4⟩
+
+/-- **concretize_request_sound** — what `PartialResponse::concretize_request` computes is the relation the soundness
+theorems assume.  If the model's `concretizeRequest σ` (the do-block mirroring the Rust function: principal / action /
+resource through `EntityUIDEntry::concretize` — σ's value must be an entity, a known entry must not be re-bound, a typed
+unknown must receive an entity of that type —; a missing context replaced by σ's `context` record, a present one conflicting
+with it; then `Context::substitute` = substitution + restricted evaluation) returns the **concrete** request `req`, then
+`PS.Concretizes2 σ es preq req` for every store `es`.  Side condition on the input: a residual context lies in the fragment
+(`PS.CtxFrag`: σ defines its unknowns with canonical values of the annotated types; distinct keys).  Built from
+`concretize_entry_gives_conc`, `context_substitute_gives_completes`, `restricted_eval_sound`. -/
+theorem concretize_request_sound (σ : Mapper) (preq : PRequest) (pes : PEntities) (ps : List Policy) (es : Entities)
+    (req : Request) (hcf : PS.CtxFrag σ preq.context)
+    (hreq : (isAuthorizedCore [] preq pes ps).concretizeRequest σ = .ok (.ofConcrete req)) :
+    PS.Concretizes2 σ es preq req := by
+  have h := PS.concretizes2_of_concretizeRequest (isAuthorizedCore [] preq pes ps) σ es req
+    (by rw [PS.isAuthorizedCore_request]; exact hcf) hreq
+  rw [PS.isAuthorizedCore_request] at h
+  exact h
+
+/-- **partial_authorization_sound_req** — `partial_authorization_sound` with the request hypotheses reduced to ONE:
+`concretize_request σ` succeeds with the concrete request `req` (`PS.Concretizes2` is derived by `concretize_request_sound`).
+Remaining hypotheses: the store (`StoreCompletes`, canonical values), the policies and a residual context lie in the
+fragment, no residual keeps a slot, fuel. -/
+theorem partial_authorization_sound_req (σ : Mapper) (req : Request) (es : Entities) (preq : PRequest) (pes : PEntities)
+    (ps : List Policy) (hctx : (Value.record req.context).Canon) (hstore : PS.StoreCanon es)
+    (hS : PS.StoreCompletes σ pes es)
+    (hfrag : ∀ p, p ∈ ps → PS.Frag2 σ p.condition ∧ p.condition.unknowns = [])
+    (hcf : PS.CtxFrag σ preq.context)
+    (hreq : (isAuthorizedCore [] preq pes ps).concretizeRequest σ = .ok (.ofConcrete req))
+    (hslot : (isAuthorizedCore [] preq pes ps).residualPoliciesPanic = false)
+    (hfuel1 : ∀ p, p ∈ ps → partialEvaluate [] preq pes p ≠ .stuck)
+    (hfuel2 : ∀ p, p ∈ ps → ∀ q, residualPolicy (partialEvaluate [] preq pes p) p = some q →
+      partialEvaluate σ (.ofConcrete req) (.ofConcrete es) q ≠ .stuck) :
+    let pr := isAuthorizedCore [] preq pes ps
+    (∃ pr2, pr.reauthorize σ (.ofConcrete es) = .ok pr2 ∧
+      pr2.decision = some (isAuthorized req es ps).decision ∧
+      pr2.concretize.decision = (isAuthorized req es ps).decision ∧
+      (∀ id, id ∈ pr2.concretize.reasons ↔ id ∈ (isAuthorized req es ps).reasons)) ∧
+    (∀ d, pr.decision = some d → (isAuthorized req es ps).decision = d) ∧
+    (∀ id, id ∈ pr.mustBeDetermining → id ∈ (isAuthorized req es ps).reasons) ∧
+    (∀ id, id ∈ (isAuthorized req es ps).reasons → id ∈ pr.mayBeDetermining) :=
+  partial_authorization_sound σ req es preq pes ps hctx hstore hS
+    (concretize_request_sound σ preq pes ps es req hcf hreq) hfrag hreq hslot hfuel1 hfuel2
+
+/-- … and the one-round statement on the unsubstituted store, likewise. -/
+theorem partial_authorization_sound_direct_req (σ : Mapper) (req : Request) (es : Entities) (preq : PRequest) (pes : PEntities)
+    (ps : List Policy) (hctx : (Value.record req.context).Canon)
+    (hS : PS.StoreCompletes σ pes es) (hD : PS.DirectUnk pes)
+    (hfrag : ∀ p, p ∈ ps → PS.Frag2 σ p.condition ∧ p.condition.unknowns = [])
+    (hcf : PS.CtxFrag σ preq.context)
+    (hreq : (isAuthorizedCore [] preq pes ps).concretizeRequest σ = .ok (.ofConcrete req))
+    (hslot : (isAuthorizedCore [] preq pes ps).residualPoliciesPanic = false)
+    (hfuel1 : ∀ p, p ∈ ps → partialEvaluate [] preq pes p ≠ .stuck)
+    (hfuel2 : ∀ p, p ∈ ps → ∀ q, residualPolicy (partialEvaluate [] preq pes p) p = some q →
+      partialEvaluate σ (.ofConcrete req) pes q ≠ .stuck) :
+    let pr := isAuthorizedCore [] preq pes ps
+    (∃ pr2, pr.reauthorize σ pes = .ok pr2 ∧
+      pr2.decision = some (isAuthorized req es ps).decision ∧
+      pr2.concretize.decision = (isAuthorized req es ps).decision ∧
+      (∀ id, id ∈ pr2.concretize.reasons ↔ id ∈ (isAuthorized req es ps).reasons)) ∧
+    (∀ d, pr.decision = some d → (isAuthorized req es ps).decision = d) ∧
+    (∀ id, id ∈ pr.mustBeDetermining → id ∈ (isAuthorized req es ps).reasons) ∧
+    (∀ id, id ∈ (isAuthorized req es ps).reasons → id ∈ pr.mayBeDetermining) :=
+  partial_authorization_sound_direct σ req es preq pes ps hctx hS hD
+    (concretize_request_sound σ preq pes ps es req hcf hreq) hfrag hreq hslot hfuel1 hfuel2
+
+/-- non-vacuity of `concretize_request_sound` / `partial_authorization_sound_req`: typed unknown principal, **residual
+    context** `{lim: unknown("l": long)}`, the store of `second_round_needed` (nested and direct unknown attributes);
+    `principal.level < context.lim`.  `concretize_request` computes the concrete request (kernel-checked `rfl`), from which
+    `Concretizes2` follows; one round on the substituted store gives the concrete `Allow`.  Rejections of
+    `concretize_request`: a non-entity value for `principal`, an entity of the wrong type, re-binding the known action. -/
+example :
+    let σ : Mapper := [("principal", .prim (.entityUID ⟨"User", "a"⟩)), ("u", .prim (.int 1)), ("l", .prim (.int 7))]
+    let req : Request := ⟨⟨"User", "a"⟩, ⟨"A", "x"⟩, ⟨"R", "r"⟩, [("lim", .prim (.int 7))]⟩
+    let preq : PRequest := ⟨.unknown (some "User"), .known ⟨"A", "x"⟩, .known ⟨"R", "r"⟩,
+      some (.residual [("lim", .unknown "l" (some .long))])⟩
+    let p : Policy := ⟨"lt", .permit, .binaryApp .less (.getAttr (.var .principal) "level") (.getAttr (.var .context) "lim"), []⟩
+    (isAuthorizedCore [] preq PS.srPes [p]).concretizeRequest σ = .ok (.ofConcrete req) ∧
+    PS.Concretizes2 σ PS.srEs preq req ∧
+    (isAuthorizedCore [] preq PS.srPes [p]).decision = none ∧
+    (∃ pr2, (isAuthorizedCore [] preq PS.srPes [p]).reauthorize σ (.ofConcrete PS.srEs) = .ok pr2 ∧
+      pr2.decision = some (isAuthorized req PS.srEs [p]).decision ∧ (isAuthorized req PS.srEs [p]).decision = .allow) ∧
+    (isAuthorizedCore [] preq PS.srPes [p]).concretizeRequest [("principal", .prim (.int 3))] = .error .concretization ∧
+    (isAuthorizedCore [] preq PS.srPes [p]).concretizeRequest [("principal", .prim (.entityUID ⟨"Group", "g"⟩))] = .error .concretization ∧
+    (isAuthorizedCore [] preq PS.srPes [p]).concretizeRequest [("action", .prim (.entityUID ⟨"A", "x"⟩))] = .error .concretization := by
+  intro σ req preq p
+  have hl : PS.UnkOK σ "l" (some .long) := ⟨_, rfl, trivial, by intro t ht; cases ht; rfl⟩
+  have hu : PS.UnkOK σ "u" none := ⟨_, rfl, trivial, by intro t ht; cases ht⟩
+  have hcf : PS.CtxFrag σ preq.context := by
+    intro kvs hk
+    cases hk
+    refine .record (by decide) ?_
+    intro kv hkv; simp only [List.mem_cons, List.not_mem_nil, or_false] at hkv; subst hkv; exact .unknown _ _ hl
+  have hreq : (isAuthorizedCore [] preq PS.srPes [p]).concretizeRequest σ = .ok (.ofConcrete req) := rfl
+  have hcan : (Value.record [("x", .prim (.int 1))]).Canon := ⟨⟨(by intro k' h; cases h), trivial⟩, trivial, trivial⟩
+  have hstore : PS.StoreCanon PS.srEs := by
+    intro u d h
+    simp only [PS.srEs, Entities.find?] at h
+    split at h
+    · cases h; exact ⟨⟨hcan, trivial, trivial⟩, trivial, trivial⟩
+    · cases h
+  have hS : PS.StoreCompletes σ PS.srPes PS.srEs := by
+    refine PS.storeCompletes_single _ _ _ rfl
+      (PS.attrsComplete_cons "info" (show PS.AttrCompletes _ _ (.residual _) _ from ⟨.record (by decide) ?_, hcan, fun _ _ => rfl⟩)
+        (PS.attrsComplete_cons "level" (show PS.AttrCompletes _ _ (.residual _) (.prim (.int 1)) from ⟨.unknown _ _ hu, trivial, fun _ _ => rfl⟩)
+          PS.attrsComplete_nil))
+      (PS.attrsComplete_cons "t" (show PS.AttrCompletes _ _ (.residual _) (.prim (.int 1)) from ⟨.unknown _ _ hu, trivial, fun _ _ => rfl⟩)
+        PS.attrsComplete_nil)
+    intro kv hkv; simp only [List.mem_cons, List.not_mem_nil, or_false] at hkv; subst hkv; exact .unknown _ _ hu
+  have hfrag : ∀ q, q ∈ [p] → PS.Frag2 σ q.condition ∧ q.condition.unknowns = [] := by
+    intro q hq; simp only [List.mem_cons, List.not_mem_nil, or_false] at hq; subst hq
+    exact ⟨.binaryApp .less (.getAttr "level" (.var _)) (.getAttr "lim" (.var _)), rfl⟩
+  obtain ⟨hf1, hf2⟩ := PS.fuelOK_spec (σ := σ) (req := req) (es := PS.srEs) (preq := preq) (pes := PS.srPes) (ps := [p])
+    (by decide +kernel)
+  have hctx : (Value.record req.context).Canon := ⟨⟨(by intro k' h; cases h), trivial⟩, trivial, trivial⟩
+  obtain ⟨⟨pr2, h1, h2, _, _⟩, _⟩ := partial_authorization_sound_req σ req PS.srEs preq PS.srPes [p] hctx hstore hS hfrag hcf hreq
+    (by decide +kernel) hf1 hf2
+  exact ⟨hreq, concretize_request_sound σ preq PS.srPes [p] PS.srEs req hcf hreq, by decide +kernel, ⟨pr2, h1, h2, by decide +kernel⟩,
+    rfl, rfl, rfl⟩
+
+/-- … the other context branch of `concretize_request`: a **missing** context supplied by σ's `context` record; a context that
+    is present conflicts with it; a non-record value for `context` is rejected. -/
+example :
+    let σ : Mapper := [("context", .record [("lim", .prim (.int 7))])]
+    let req : Request := ⟨⟨"User", "a"⟩, ⟨"A", "x"⟩, ⟨"R", "r"⟩, [("lim", .prim (.int 7))]⟩
+    let preq : PRequest := ⟨.known ⟨"User", "a"⟩, .known ⟨"A", "x"⟩, .known ⟨"R", "r"⟩, none⟩
+    (isAuthorizedCore [] preq ⟨[], false⟩ []).concretizeRequest σ = .ok (.ofConcrete req) ∧
+    PS.Concretizes2 σ [] preq req ∧
+    (isAuthorizedCore [] (.ofConcrete req) ⟨[], false⟩ []).concretizeRequest σ = .error .concretization ∧
+    (isAuthorizedCore [] preq ⟨[], false⟩ []).concretizeRequest [("context", .prim (.int 1))] = .error .concretization := by
+  intro σ req preq
+  have hreq : (isAuthorizedCore [] preq ⟨[], false⟩ []).concretizeRequest σ = .ok (.ofConcrete req) := rfl
+  exact ⟨hreq, concretize_request_sound σ preq ⟨[], false⟩ [] [] req (by intro kvs hk; cases hk) hreq, rfl, rfl⟩
+
+/-! ### calls of the `unknown` extension function in the policy text -/
+
+/-- **unknown_call_counterexample** (kernel-checked) — the soundness statement is FALSE for policies that call the
+`unknown` extension function, in both forms, so the side condition `fn ≠ "unknown"` of `Frag2.call` cannot be dropped.
+Rust: in `partial_interpret` the arm `ExtensionFunctionApp` evaluates the arguments and calls `efunc.call`, which for `unknown`
+(`extensions/partial_evaluation.rs: create_new_unknown`) returns `PartialValue::Residual(Expr::unknown(Unknown::new_untyped(s)))`
+directly — an unknown *node*, not passed through the unknowns mapper; `Evaluator::interpret` (concrete evaluation) turns that
+residual into the error `non_value`; `Expr::substitute` replaces unknown nodes only, it never touches the call.  Hence for
+`permit when { unknown("x") == 1 }`, a fully concrete request, the empty store and σ = {x ↦ 1}:
+  * the first pass leaves `unknown(x) == 1` (a node now) — also with a first-pass mapper that defines `x`;
+  * substitution form: the substituted residual evaluates to `true`, the substituted policy text (= the policy text) is an
+    error;
+  * `reauthorize` form: one `reauthorize σ` round answers `Allow`, the fresh concrete authorization of the policy answers
+    `Deny` (the policy errors) — although every other hypothesis of `partial_authorization_sound` holds (`unknowns = []`,
+    no slot, `concretize_request` succeeds, no budget exhaustion);
+  * read as the node it creates (`PS.desugarUnk`), the policy is in `Frag2 σ` and concretely `Allow`: the only concrete
+    counterpart such a policy has is its (substituted) desugaring. -/
+theorem unknown_call_counterexample :
+    let e : Expr := .binaryApp .eq (.call "unknown" [.lit (.string "x")]) (.lit (.int 1))
+    let r : Expr := .binaryApp .eq (.unknown "x" none) (.lit (.int 1))
+    let σ : Mapper := [("x", .prim (.int 1))]
+    let req : Request := ⟨⟨"U", "a"⟩, ⟨"A", "x"⟩, ⟨"R", "r"⟩, []⟩
+    let p : Policy := ⟨"p", .permit, e, []⟩
+    let p' : Policy := ⟨"p", .permit, (PS.desugarUnk e).substUnk σ, []⟩
+    pinterp [] (.ofConcrete req) ⟨[], false⟩ [] 10 e = .res r ∧
+    pinterp σ (.ofConcrete req) ⟨[], false⟩ [] 10 e = .res r ∧
+    e.substUnk σ = e ∧ e.unknowns = [] ∧
+    evaluate req [] [] (r.substUnk σ) = .ok (.prim (.bool true)) ∧
+    evaluate req [] [] (e.substUnk σ) = .error .ext ∧
+    ¬ PS.Agree (evaluate req [] [] (r.substUnk σ)) (evaluate req [] [] (e.substUnk σ)) ∧
+    (isAuthorizedCore [] (.ofConcrete req) ⟨[], false⟩ [p]).concretizeRequest σ = .ok (.ofConcrete req) ∧
+    (isAuthorizedCore [] (.ofConcrete req) ⟨[], false⟩ [p]).residualPoliciesPanic = false ∧
+    PS.fuelOK σ req [] (.ofConcrete req) ⟨[], false⟩ [p] = true ∧
+    (∃ pr2, (isAuthorizedCore [] (.ofConcrete req) ⟨[], false⟩ [p]).reauthorize σ (.ofConcrete []) = .ok pr2 ∧
+      pr2.decision = some .allow) ∧
+    (isAuthorized req [] [p]).decision = .deny ∧
+    PS.desugarUnk e = r ∧ PS.Frag2 σ (PS.desugarUnk e) ∧ (isAuthorized req [] [p']).decision = .allow := by
+  intro e r σ req p p'
+  have h1 : evaluate req [] [] (r.substUnk σ) = .ok (.prim (.bool true)) := by with_unfolding_all rfl
+  have h2 : evaluate req [] [] (e.substUnk σ) = .error .ext := by with_unfolding_all rfl
+  refine ⟨rfl, rfl, rfl, rfl, h1, h2, ?_, rfl, by decide +kernel, by decide +kernel, ⟨_, rfl, by decide +kernel⟩,
+    by decide +kernel, rfl, ?_, by decide +kernel⟩
+  · rw [h1, h2]
+    rintro (⟨v, _, hv⟩ | ⟨c, c', hc, _⟩)
+    · cases hv
+    · cases hc
+  · exact .binaryApp .eq (.unknown "x" none ⟨_, rfl, trivial, by intro t ht; cases ht⟩) (.lit _)
+
+/-- **Full statement for `unknown` calls**, kept visible; NOT proved.  The sound reading of a policy that calls
+`unknown("s")` with a literal name is its desugaring `PS.desugarUnk` (the call replaced by the untyped unknown node it
+creates): the first pass (empty mapper, as in `is_authorized_core`) on the policy text is sound for the substituted
+*desugared* text; residuals are compared after desugaring too, because the best-effort fall-back (`bestEffort`) copies
+original operands — calls included — into residuals.  Calls with a computed name (`unknown(context.n)`) stay outside. -/
+def UnknownCallSoundFull : Prop :=
+  ∀ (σ : Mapper) (req : Request) (es : Entities) (env : SlotEnv) (e : Expr) (preq : PRequest) (pes : PEntities) (n : Nat),
+    (Value.record req.context).Canon → PS.Frag2 σ (PS.desugarUnk e) → PS.StoreCompletes σ pes es → PS.Concretizes2 σ es preq req →
+    match pinterp [] preq pes env n e with
+    | .val v => evaluate req es env ((PS.desugarUnk e).substUnk σ) = .ok v
+    | .err _ => ∃ c, evaluate req es env ((PS.desugarUnk e).substUnk σ) = .error c
+    | .res r => PS.Agree (evaluate req es env ((PS.desugarUnk r).substUnk σ)) (evaluate req es env ((PS.desugarUnk e).substUnk σ))
+    | .fuel => True
+    | .panic => True
+
+/-- **unknown_call_sound_partial** — what is proved of `UnknownCallSoundFull`: the call itself.  For every mapper, partial
+request, store and budget ≥ 2 the first pass turns `unknown("s")` into the node `unknown(s)` (never consulting the
+mapper), and if σ defines `s` that residual, substituted, evaluates to σ's value — the value of the substituted desugaring.
+Missing: the congruence "first pass of `e` = first pass of `desugarUnk e` up to desugaring of residuals and one unit of
+budget per call" through all arms of `partial_interpret` (best-effort fall-backs, `get_attr` re-interpretation, typed-unknown
+short circuits — which never fire on the untyped node a call creates). -/
+theorem unknown_call_sound_partial (σ m : Mapper) (req : Request) (es : Entities) (env : SlotEnv) (preq : PRequest)
+    (pes : PEntities) (n : Nat) (s : String) (hs : PS.UnkOK σ s none) :
+    let e : Expr := .call "unknown" [.lit (.string s)]
+    PS.desugarUnk e = .unknown s none ∧
+    pinterp m preq pes env (n + 2) e = .res (PS.desugarUnk e) ∧
+    ∃ v, lookupKV σ s = some v ∧ evaluate req es env ((PS.desugarUnk e).substUnk σ) = .ok v := by
+  intro e
+  obtain ⟨v, hl, hcan, _⟩ := hs
+  have hd : PS.desugarUnk e = .unknown s none := by simp [e, PS.desugarUnk, PS.isUnkCall]
+  refine ⟨hd, ?_, v, hl, ?_⟩
+  · rw [hd]; exact PS.pinterp_unknownCall m preq pes env n s
+  · rw [hd]; exact PS.Y_unknown σ req es env hl hcan
+
+/-- kernel-checked instance of `UnknownCallSoundFull` beyond the bare call: unknown principal, `unknown("y") && (1 + "a" ==
+    unknown("x")) || principal == unknown("z")` — the erroring right operand of `&&` is copied into the residual by the
+    best-effort fall-back, call included; after desugaring, both sides evaluate to `true` under σ. -/
+example :
+    let σ : Mapper := [("principal", .prim (.entityUID ⟨"U", "a"⟩)), ("x", .prim (.int 1)), ("y", .prim (.bool false)),
+      ("z", .prim (.entityUID ⟨"U", "a"⟩))]
+    let req : Request := ⟨⟨"U", "a"⟩, ⟨"A", "x"⟩, ⟨"R", "r"⟩, []⟩
+    let preq : PRequest := ⟨.unknown (some "U"), .known ⟨"A", "x"⟩, .known ⟨"R", "r"⟩, some (.value [])⟩
+    let e : Expr := .or (.and (.call "unknown" [.lit (.string "y")])
+        (.binaryApp .eq (.binaryApp .add (.lit (.int 1)) (.lit (.string "a"))) (.call "unknown" [.lit (.string "x")])))
+      (.binaryApp .eq (.var .principal) (.call "unknown" [.lit (.string "z")]))
+    let r : Expr := .or (.and (.unknown "y" none)
+        (.binaryApp .eq (.binaryApp .add (.lit (.int 1)) (.lit (.string "a"))) (.call "unknown" [.lit (.string "x")])))
+      (.binaryApp .eq (.unknown "principal" (some (.entity "U"))) (.unknown "z" none))
+    pinterp [] preq ⟨[], false⟩ [] 10 e = .res r ∧
+    evaluate req [] [] ((PS.desugarUnk r).substUnk σ) = .ok (.prim (.bool true)) ∧
+    evaluate req [] [] ((PS.desugarUnk e).substUnk σ) = .ok (.prim (.bool true)) := by
+  intro σ req preq e r
+  exact ⟨rfl, by with_unfolding_all rfl, by with_unfolding_all rfl⟩
 
 end Cedar.C13
